@@ -40,7 +40,7 @@ pub fn run(cfg: &RunCfg) -> Ctx {
         WIRELOG_LINES.store(0, Relaxed);
     }
     let mut all = Ctx::new();
-    all.merge(par_cases(cfg, "wire", cfg.n(4000, 16 * 15_000), || (), |_, rng, ctx, i| case(rng, ctx, i)));
+    all.merge(par_cases(cfg, "wire", cfg.n(4000, 16 * 120_000), || (), |_, rng, ctx, i| case(rng, ctx, i)));
     *WIRELOG.lock().unwrap() = None;
     all.add("wirelog.records", WIRELOG_LINES.load(Relaxed).min(WIRELOG_MAX));
     for e in Enc::all() {
